@@ -1,0 +1,60 @@
+//go:build verif
+
+package jsonapi
+
+// Contracts for unmarshaling resources (C13, C05, C06).
+//
+// The decoded skeleton of a resource payload is observed through functions of
+// the payload text (assumed JSON-structure axiom of encoding/json, see
+// /verif/govc/stdlib.go): which members exist and what their raw texts are.
+
+//@ uninterp jsonOK_resource(string) bool
+//@ uninterp rsk_id(string) string
+//@ uninterp rsk_type(string) string
+//@ uninterp rsk_hasAttr(string, string) bool
+//@ uninterp rsk_attrText(string, string) string
+//@ uninterp rsk_hasRel(string, string) bool
+//@ uninterp rsk_relData(string, string) string
+//@ uninterp isIdentJSON(string) bool
+//@ uninterp ident_id(string) string
+//@ uninterp ident_type(string) string
+//@ uninterp isIdentsJSON(string) bool
+//@ uninterp idents_len(string) `Int`
+//@ uninterp idents_id(string, int) string
+
+// Domain: no schema field is called "id" (JSON:API reserves the name; the library does not check it).
+//@ spec noIDField(s *Schema) = forall i int :: 0 <= i && i < len(s.Types) ==> !("id" in s.Types[i].Attrs) && !("id" in s.Types[i].Rels)
+//@ spec upShape(res *SoftResource, typ Type, t string) = res != nil && fresh(res) && res.Type != nil && fresh(res.Type) && res.Type.Name == typ.Name && srTypeWf(res) && res.id == rsk_id(t) && (res.Type.Attrs == nil || fresh(res.Type.Attrs)) && (res.Type.Rels == nil || fresh(res.Type.Rels)) && (res.data == nil || fresh(res.data)) && res.Type.NewFunc == nil
+//@ spec upTyped(res *SoftResource) = res.data != nil ==> srTyped(res)
+
+//@ func UnmarshalPartialResource
+//@ props C13 C05
+//@ requires schema: schema != nil && allTypesWf(schema) && noIDField(schema)
+//@ modifies new[SoftResource], new[Type], new[map[string]any], new[map[string]Attr], new[map[string]Rel], new[time.Time], new[uint8], new[string], new[resourceSkeleton], new[map[string][]uint8], new[map[string]relationshipSkeleton], new[Identifier], new[[]Identifier], new[any], new[int], new[int8], new[int16], new[int32], new[int64], new[uint], new[uint16], new[uint32], new[uint64], new[bool], new[[]uint8]
+//@ ensures error-xor-result: (result1 != nil) == (result0 == nil)
+//@ ensures known-type: result1 == nil ==> hasType(schema, result0.Type.Name)
+//@ ensures type-name: result1 == nil ==> result0.Type != nil && result0.Type.Name == rsk_type(old(text(data)))
+//@ ensures id: result1 == nil ==> result0.id == rsk_id(old(text(data)))
+//@ ensures attrs-dom: result1 == nil ==> (forall a string :: (a in result0.Type.Attrs) == rsk_hasAttr(old(text(data)), a))
+//@ ensures attrs-def: result1 == nil ==> (forall a string, i int :: a in result0.Type.Attrs && isFirst(schema, i, rsk_type(old(text(data)))) ==> a in schema.Types[i].Attrs && result0.Type.Attrs[a] == schema.Types[i].Attrs[a])
+//@ ensures rels-dom: result1 == nil ==> (forall r string :: (r in result0.Type.Rels) == (rsk_hasRel(old(text(data)), r) && rsk_relData(old(text(data)), r) != ""))
+//@ ensures rels-def: result1 == nil ==> (forall r string, i int :: r in result0.Type.Rels && isFirst(schema, i, rsk_type(old(text(data)))) ==> r in schema.Types[i].Rels && result0.Type.Rels[r] == schema.Types[i].Rels[r])
+//@ ensures typed: result1 == nil ==> srTyped(result0)
+//@ loop 0 invariant frame: unchanged(heap[Type]) && unchanged(heap[Schema]) && unchanged(maps[map[string]Attr]) && unchanged(maps[map[string]Rel]) && unchanged(heap[string]) && unchanged(heap[uint8]) && unchanged(heap[SoftResource]) && unchanged(maps[map[string]any])
+//@ loop 0 invariant shape: res != nil && fresh(res) && res.Type == &newType && fresh(res.Type) && res.Type.Name == typ.Name && res.id == rsk_id(old(text(data))) && res.Type.NewFunc == nil
+//@ loop 0 invariant shape-wf: attrsWf(res.Type.Attrs) && relsWf(res.Type.Rels) && fieldsDisjoint(*res.Type)
+//@ loop 0 invariant shape-fresh: (res.Type.Attrs == nil || fresh(res.Type.Attrs)) && (res.Type.Rels == nil || fresh(res.Type.Rels)) && (res.data == nil || fresh(res.data))
+//@ loop 0 invariant attrs-so-far: forall a string :: visited(a) ==> a in res.Type.Attrs && res.Type.Attrs[a] == typ.Attrs[a]
+//@ loop 0 invariant attrs-only: forall a string :: a in res.Type.Attrs ==> visited(a) && a in typ.Attrs
+//@ loop 0 invariant no-rels: forall r string :: !(r in res.Type.Rels)
+//@ loop 0 invariant typed: upTyped(res)
+//@ loop 1 invariant frame: unchanged(heap[Type]) && unchanged(heap[Schema]) && unchanged(maps[map[string]Attr]) && unchanged(maps[map[string]Rel]) && unchanged(heap[string]) && unchanged(heap[uint8]) && unchanged(heap[SoftResource]) && unchanged(maps[map[string]any])
+//@ loop 1 invariant shape: res != nil && fresh(res) && res.Type == &newType && fresh(res.Type) && res.Type.Name == typ.Name && res.id == rsk_id(old(text(data))) && res.Type.NewFunc == nil
+//@ loop 1 invariant shape-wf: attrsWf(res.Type.Attrs) && relsWf(res.Type.Rels) && fieldsDisjoint(*res.Type)
+//@ loop 1 invariant shape-fresh: (res.Type.Attrs == nil || fresh(res.Type.Attrs)) && (res.Type.Rels == nil || fresh(res.Type.Rels)) && (res.data == nil || fresh(res.data))
+//@ loop 1 invariant attrs-done: forall a string :: (a in res.Type.Attrs) == rsk_hasAttr(old(text(data)), a)
+//@ loop 1 invariant attrs-def: forall a string :: a in res.Type.Attrs ==> a in typ.Attrs && res.Type.Attrs[a] == typ.Attrs[a]
+//@ loop 1 invariant rels-so-far: forall r string :: visited(r) && rsk_relData(old(text(data)), r) != "" ==> r in res.Type.Rels && res.Type.Rels[r] == typ.Rels[r]
+//@ loop 1 invariant rels-only: forall r string :: r in res.Type.Rels ==> visited(r) && r in typ.Rels && rsk_relData(old(text(data)), r) != ""
+//@ loop 1 invariant typed: upTyped(res)
+//@ loop 2 invariant ids: fresh(ids) && len(ids) == len(idens) && unchanged(heap[string])
